@@ -1526,6 +1526,16 @@ class LigatureSubst(FormatSwitchingBaseTable):
         self.ligatures = ligatures
         del self.Format  # Don't need this anymore
 
+    def ensureDecompiled(self, recurse=False):
+        super().ensureDecompiled(recurse)
+        if recurse:
+            # the Ligature records are kept in self.ligatures, out of reach of
+            # iterSubTables()
+            for glyph, ligs in self.ligatures.items():
+                self.ligatures[glyph] = ligs = list(ligs)
+                for lig in ligs:
+                    lig.ensureDecompiled(recurse)
+
     @staticmethod
     def _getLigatureSortKey(components):
         # Computes a key for ordering ligatures in a GSUB Type-4 lookup.
